@@ -147,12 +147,12 @@ func (d *jdb) Delete(k []byte) {
 	d.inner.Delete(k)
 	d.j.unit("delete", []kvop{{false, append([]byte(nil), k...), nil}})
 }
-func (d *jdb) Get(k []byte) []byte                   { return d.inner.Get(k) }
-func (d *jdb) Exist(k []byte) bool                   { return d.inner.Exist(k) }
-func (d *jdb) Iterator(s, e []byte) db.Iterator      { return d.inner.Iterator(s, e) }
-func (d *jdb) Close()                                { d.inner.Close() }
-func (d *jdb) NewTx() db.Transaction                 { return &jtx{d: d, inner: d.inner.NewTx(), ops: list.New()} }
-func (d *jdb) NewBulk() db.Bulk                      { return &jbulk{d: d, inner: d.inner.NewBulk(), ops: list.New()} }
+func (d *jdb) Get(k []byte) []byte              { return d.inner.Get(k) }
+func (d *jdb) Exist(k []byte) bool              { return d.inner.Exist(k) }
+func (d *jdb) Iterator(s, e []byte) db.Iterator { return d.inner.Iterator(s, e) }
+func (d *jdb) Close()                           { d.inner.Close() }
+func (d *jdb) NewTx() db.Transaction            { return &jtx{d: d, inner: d.inner.NewTx(), ops: list.New()} }
+func (d *jdb) NewBulk() db.Bulk                 { return &jbulk{d: d, inner: d.inner.NewBulk(), ops: list.New()} }
 
 type jtx struct {
 	d     *jdb
